@@ -19,6 +19,9 @@ def setup(ctx):
 def gen_graph(rng, version):
     n = rng.randint(2, 8)
     names = ["s%d" % i for i in range(n)]
+    if rng.random() < 0.3:
+        # (names which end with the letters of the segment ends)
+        names = [x + rng.choice(["L", "R", "RR", "LR", "l"]) for x in names]
     with_seq = rng.random() < 0.7
     segs = {}
     for s in names:
@@ -141,7 +144,12 @@ def merge_one_reversed(ctx, g, path, inplace, recs, version, lines):
         ctx.violation("reversed-path-differs/%s" % ("in-place" if inplace else "reversed()"),
                       "path %r reversed: gfapy %r, expected %r" % (fwd, got, want))
         return
-    m = call(ctx, "merge_linear_path", g.merge_linear_path, rev)
+    arg = rev
+    if len(repr(lines)) % 3 != 0:
+        # the documented other forms of a path: 'name' + 'L'/'R' strings, or [name, end] pairs
+        arg = [str(se) for se in rev] if len(repr(lines)) % 2 else [[se.name, se.end_type] for se in rev]
+        ctx.count("paths_given_as_strings_or_pairs")
+    m = call(ctx, "merge_linear_path", g.merge_linear_path, arg)
     if not m.ok:
         ctx.violation("gfa1/merge-raises/%s/single-reversed-path" % m.cls(), "path %r of %r: %s" % (got, lines, str(m.exc)[:300]))
         return
@@ -215,7 +223,7 @@ def run(case, ctx):
         ctx.nontriv(lines)
     for f in case["feats"]:
         ctx.add("features", f)
-    if version == "gfa1" and len(repr(lines)) % 8 == 0 and not (case.get("opts") or {}):
+    if version == "gfa1" and len(repr(lines)) % 5 == 0 and not (case.get("opts") or {}):
         # one path, turned round (in place, or through reversed()), merged on its own: the merged
         # segment spells the chain in the direction it was given
         cands = [p_ for p_ in lp.value if frozenset(se.name for se in p_) not in rings]
